@@ -221,11 +221,26 @@ class Env:
 
         self.context = XmlContext()
         self.tools = {}
+        self._context2 = None
+
+    @property
+    def context2(self):
+        """A second long-lived context of the same callers, with other name generators."""
+        if self._context2 is None:
+            from xsdata.formats.dataclass.context import XmlContext
+            from xsdata.utils import text
+
+            self._context2 = XmlContext(element_name_generator=text.camel_case, attribute_name_generator=text.kebab_case)
+        return self._context2
 
     def tool(self, key):
         t = self.tools.get(key)
         if t is None:
-            t = self.tools[key] = make_tool(key, self.context)
+            if key[0].endswith("2"):
+                t = make_tool((key[0][:-1],) + tuple(key[1:]), self.context2)
+            else:
+                t = make_tool(key, self.context)
+            self.tools[key] = t
         return t
 
     def prepare(self, ops):
@@ -344,6 +359,10 @@ def same(a, b):
 SHARED_INPUTS = None
 
 
+# When a dict, the callers of a run keep ONE prefix map: parsers record into it, serializers get the very same object.
+SHARED_NSMAP = None
+
+
 def _input(key, make):
     if SHARED_INPUTS is None:
         return make()
@@ -386,6 +405,8 @@ def op_parse_xml(docname, data, clazz_key, handler, cfg, needs, group):
                 return p.parse(r, clazz)
             finally:
                 fault["fired"] = r.fired or (fault.get("eof_at") is not None and fault["eof_at"] < len(data)) or bool(fault.get("chunks"))
+        if SHARED_NSMAP is not None:
+            return p.from_bytes(data, clazz, ns_map=SHARED_NSMAP)
         return p.from_bytes(data, clazz)
 
     faults = ("reader", "factory") if cfg == "factory" else ("reader",)
@@ -429,6 +450,39 @@ def op_parse_xml_file(docname, relpath, clazz_key, handler, cfg, needs, group):
     return Op(f"parse_xml:{handler}:{docname}:{cfg}", "parse_xml", fn, tool, needs, (), group, docname)
 
 
+def op_namegen(objname, factory, xml_doc, clazz_key, group):
+    """The same object and a document of its class through tools bound to the callers' second context
+    (camelCase element names, kebab-case attribute names)."""
+    out = []
+
+    def ser(kind, tool):
+        def fn(env, fault):
+            t = env.tool(tool)
+            obj = _input(("obj", "namegen:" + objname), factory)
+            return t.encode(obj) if kind == "dict_encode" else t.render(obj)
+
+        return Op(f"{kind}:{objname}:namegen:{tool[0]}", kind, fn, tool, None, (), group)
+
+    out.append(ser("ser_json", ("js2", "default")))
+    out.append(ser("dict_encode", ("de2", "default", "dict")))
+    out.append(ser("tree_ser", ("ts2", "default")))
+    for w in ("lxml", "native"):
+        tool = ("xs2", w, "default")
+
+        def fn(env, fault, tool=tool):
+            return env.tool(tool).render(_input(("obj", "namegen:" + objname), factory))
+
+        out.append(Op(f"ser_xml:{w}:{objname}:namegen:none", "ser_xml", fn, tool, None, (), group))
+    for h in ("lxml", "native"):
+        tool = ("xp2", h, "default")
+
+        def pfn(env, fault, tool=tool):
+            return env.tool(tool).from_bytes(xml_doc, _resolve_clazz(clazz_key))
+
+        out.append(Op(f"parse_xml:{h}:{objname}:namegen", "parse_xml", pfn, tool, None, (), group, objname))
+    return out
+
+
 def op_user_parse(docname, data, clazz_key, handler, needs, group):
     tool = ("up", handler)
 
@@ -459,6 +513,8 @@ def op_ser_xml(objname, factory, writer, cfg, nsmap, needs, group):
         s = env.tool(tool)
         ns_map = NS_MAPS[nsmap]
         ns_map = dict(ns_map) if ns_map is not None else None
+        if ns_map is None and SHARED_NSMAP is not None:
+            ns_map = SHARED_NSMAP  # the caller's long-lived map, the same object every time
         obj = _input(("obj", objname), factory)
         if fault and fault.get("t") == "writer":
             w = SimWriter(raise_at=fault.get("raise_at"), raise_kind=fault.get("raise_kind", "enospc"))
@@ -661,6 +717,8 @@ def build_ops(gen_docs=None):
         g = group_of(ck)
         ops.append(op_ser_xml(name, factory, "lxml", "globalns2", "none", None, g))
         ops.append(op_ser_json(name, factory, "globalns2", None, g))
+    for name, (factory, ck, xml_doc) in C.OBJS_NAMEGEN.items():
+        ops.extend(op_namegen(name, factory, xml_doc, ck, group_of(ck)))
     # JSON
     for name, (text, ck, needs) in list(C.JSON.items()) + list(C.BAD_JSON.items()) + list(gen_docs["json"].items()):
         g = group_of(ck[5:] if ck and ck.startswith("list:") else ck)
@@ -687,7 +745,7 @@ def build_ops(gen_docs=None):
     for table in (C.XML, C.XML_FILES, C.BAD_XML, gen_docs["xml"], C.JSON, C.BAD_JSON, gen_docs["json"]):
         for name, (_, ck, _) in table.items():
             doc_ck[name] = ck
-    obj_ck = {name: ck for name, (_, ck) in list(C.OBJS.items()) + list(C.OBJS_GLOBALNS.items()) + list(C.OBJS_GLOBALNS2.items())}
+    obj_ck = {name: ck for name, (_, ck) in list(C.OBJS.items()) + list(C.OBJS_GLOBALNS.items()) + list(C.OBJS_GLOBALNS2.items()) + [(n, (f, ck)) for n, (f, ck, _) in C.OBJS_NAMEGEN.items()]}
     for op in ops:
         parts = op.name.split(":")
         if op.kind == "parse_xml":
